@@ -130,8 +130,8 @@ class Runner:
                 ops = ["set", "get", "del", "in", "len", "iter", "getd", "clear", "sync", "set_nonbytes"]
                 w = [24, 16, 10, 8, 5, 6, 8, 2, 4, 6]
                 if full:
-                    ops += ["reopen", "closed_ops", "path_refusals"]
-                    w += [8, 2, 2]
+                    ops += ["reopen", "closed_ops", "path_refusals", "with_block_exception", "reopen_elsewhere"]
+                    w += [8, 2, 2, 2, 0.06]
                 op = rng.choices(ops, w)[0]
                 d = self.apply(op, d, model, rng, path)
             # end of sequence
@@ -292,6 +292,83 @@ class Runner:
                 raise Fail()
             acc.count("reopens")
             self.full_compare(d, model, "after-reopen")
+        elif op == "reopen_elsewhere":
+            # the dictionary is closed here and opened by ANOTHER interpreter process (another hash seed, as after any
+            # restart of a program), which reports what it finds; then this process opens it again
+            self.trace.append(["close; open in a fresh interpreter with another hash seed; open"])
+            import subprocess
+            import sys
+            d.close()
+            code = ("import sys, pickle; sys.path.insert(0, sys.argv[2]); "
+                    "from data_persistence.persistent_dict import PickledDict; d = PickledDict.open(sys.argv[1]); "
+                    "items = {k: d[k] for k in list(d)}; n = len(d); d.close(); "
+                    "sys.stdout.buffer.write(pickle.dumps((n, items)))")
+            env = dict(os.environ, PYTHONHASHSEED=str(rng.randrange(1, 2 ** 31)))
+            try:
+                r = subprocess.run([sys.executable, "-B", "-c", code, path, os.environ.get("VERIF_REPO", "/repo")],
+                                   capture_output=True, timeout=60, env=env)
+            except subprocess.TimeoutExpired:
+                acc.count("reopen_elsewhere.timeouts")
+                r = None
+            if r is not None:
+                acc.count("reopens_in_another_process")
+                if r.returncode != 0:
+                    self.viol("cannot-be-opened-by-another-process",
+                              "a dictionary closed by this process cannot be opened by a fresh interpreter with another hash "
+                              "seed: " + r.stderr.decode(errors="replace").strip().splitlines()[-1][:200])
+                    raise Fail()
+                import pickle as _p
+                n, items = _p.loads(r.stdout)
+                if n != len(model) or items != model:
+                    self.viol("state-diverged:opened-by-another-process",
+                              f"another process finds {n} entries, the model has {len(model)}")
+                    raise Fail()
+            try:
+                d = self.cls.open(path)
+            except Exception as e:
+                self.viol(f"reopen-raised:{exc_site(e)}", f"{type(e).__name__}: {e}")
+                raise Fail()
+            self.full_compare(d, model, "after-reopen-elsewhere")
+        elif op == "with_block_exception":
+            # close, then a `with` block that is LEFT BY AN EXCEPTION after some updates (a lookup / deletion of a missing
+            # key raising KeyError as a dict does, a refused str value): leaving the block closes the dictionary, and what
+            # a later open() finds is what it held at that moment
+            d.close()
+            kind = rng.choice(["lookup-missing", "delete-missing", "refused-value"])
+            self.trace.append(["close; with open(path) as d: updates; " + kind + " raises; open"])
+            acc.count("with_blocks_left_by_an_exception")
+            missing = b"never-stored-" + rng.randbytes(3)
+            try:
+                with self.cls.open(path) as d2:
+                    for _ in range(rng.randint(1, 3)):
+                        k, v = rng.choice(UNIVERSE), rng.randbytes(rng.randint(0, 5))
+                        d2[k] = v
+                        model[k] = v
+                    if model and rng.random() < 0.5:
+                        k = rng.choice(sorted(model))
+                        del d2[k]
+                        del model[k]
+                    if kind == "lookup-missing":
+                        d2[missing]
+                    elif kind == "delete-missing":
+                        del d2[missing]
+                    else:
+                        d2[b"k0"] = "a str value"
+                self.viol("with-block:no-exception", f"{kind} inside a with block did not raise")
+                raise Fail()
+            except Fail:
+                raise
+            except (KeyError, TypeError):
+                pass
+            except Exception as e:
+                self.viol(f"with-block:unexpected-exception:{exc_site(e)}", f"{type(e).__name__}: {e}")
+                raise Fail()
+            try:
+                d = self.cls.open(path)
+            except Exception as e:
+                self.viol(f"reopen-raised:{exc_site(e)}", f"after a with block left by an exception: {type(e).__name__}: {e}")
+                raise Fail()
+            self.full_compare(d, model, "after-with-block-left-by-an-exception")
         elif op == "closed_ops":
             self.trace.append(["close; every operation must raise ValueError; open"])
             d.close()
@@ -513,6 +590,10 @@ def finish(m, tier, seed):
         inc.append("fewer than 100 DBMDict sequences")
     if c.get("reopens", 0) < 300:
         inc.append("fewer than 300 close+open cycles")
+    if c.get("reopens_in_another_process", 0) < 20:
+        inc.append(f"only {c.get('reopens_in_another_process', 0)} dictionaries were opened by another interpreter process")
+    if c.get("with_blocks_left_by_an_exception", 0) < 100:
+        inc.append("fewer than 100 with blocks left by an exception")
     if c.get("aliasing_checks", 0) < 50:
         inc.append("from_dict aliasing hardly checked")
     if c.get("closed_ops_checked", 0) < 100 or c.get("refusals.path", 0) < 20 or c.get("refusals.nonbytes", 0) < 100:
